@@ -58,7 +58,10 @@ class World:
         e = self.ev("Stretch(h, v)", h=self.size(*extent[0]), v=self.size(*extent[1])) if extent else None
         p = self.ev("Padding(before=b, after=a, start=s, end=e)", **{k: self.size(*v) for k, v in
                                                                      zip("baes", padding)}) if padding else None
-        a = self.ev(f"Alignment(HorizontalAlignmentEnum.{align}, VerticalAlignmentEnum.TOP)") if align else None
+        if align == "VERTICAL-ONLY":
+            a = self.ev("Alignment(None, VerticalAlignmentEnum.TOP)")
+        else:
+            a = self.ev(f"Alignment(HorizontalAlignmentEnum.{align}, VerticalAlignmentEnum.TOP)") if align else None
         return self.ev("Layout(origin=o, extent=e, padding=p, alignment=a)", o=o, e=e, p=p, a=a)
 
     def settings(self, lay, relativize, fit, vw, vh):
@@ -91,7 +94,9 @@ def expected(origin, extent, padding, align, relativize, fit, vw, vh):
         if w is None or x + w > 90:
             w = 90 - x
     out = {}
-    if align and align != "CENTER":
+    if align == "VERTICAL-ONLY":
+        out["align"] = "start"         # no horizontal alignment given: the DFXP default (start)
+    elif align and align != "CENTER":
         out["align"] = align.lower()
     elif not align:
         out["align"] = None            # not specified by the property
@@ -103,6 +108,12 @@ def expected(origin, extent, padding, align, relativize, fit, vw, vh):
     if w is not None:
         out["size"] = w - ps - pe
     return out
+
+
+def _snap(o, depth=0):
+    if isinstance(o, Stub):
+        return (o.name, tuple(sorted((k, _snap(v, depth + 1)) for k, v in o.attrs.items()))) if depth < 8 else "..."
+    return repr(o)
 
 
 def parse(s):
@@ -117,12 +128,12 @@ def parse(s):
 
 def explore(ctx, thorough):
     Wd = World(ctx)
-    bad = {"raise": [], "units": [], "arith": [], "align": [], "fit": []}
+    bad = {"raise": [], "units": [], "arith": [], "align": [], "fit": [], "mutated": []}
     origins = [((10, "%"), (20, "%")), ((64, "px"), (36, "px")), ((2, "em"), (1, "em")), ((12, "pt"), (27, "pt")),
                ((8, "c"), (3, "c")), ((33.333, "%"), (12.5, "%"))]
     extents = [None, ((50, "%"), (10, "%")), ((320, "px"), (36, "px")), ((85, "%"), (90, "%"))]
     paddings = [None, ((5, "%"), (5, "%"), (2, "%"), (3, "%")), ((18, "px"), (18, "px"), (32, "px"), (16, "px"))]
-    aligns = [None, "LEFT", "CENTER", "RIGHT", "START", "END"]
+    aligns = [None, "LEFT", "CENTER", "RIGHT", "START", "END", "VERTICAL-ONLY"]
     videos = [(W, H), (None, None), (W, None), (None, H)]
     n = 0
     for oi, ei, pi in itertools.product(range(len(origins)), range(len(extents)), range(len(paddings))):
@@ -133,7 +144,13 @@ def explore(ctx, thorough):
             n += 1
             try:
                 lay = Wd.layout(o, e, p, a)
+                watch = n % 5 == 0          # the receiver is compared before / after on every fifth configuration
+                before = _snap(lay) if watch else None
                 got = Wd.settings(lay, rel, fit, vw, vh)
+                if watch and _snap(lay) != before:
+                    bad["mutated"].append({"origin": o, "extent": e, "padding_before_after_end_start": p, "alignment": a,
+                                           "relativize": rel, "fit_to_screen": fit, "video": (vw, vh),
+                                           "layout_before": str(before)[:200], "layout_after": str(_snap(lay))[:200]})
             except AnalysisError as ex:
                 if isinstance(ex, FoldRaise):
                     got = ("raise", ex.exc_name)
@@ -272,6 +289,9 @@ def run(ctx, report, rules):
     fn, bad, n = ctx.memo(("webvtt_layout_fold", thorough), lambda: explore(ctx, thorough))
     report.covered(fn)
     report.count("webvtt_layouts_folded", n)
-    for key, (rule, clause, text) in rules.items():
+    for key, val in rules.items():
+        rule, clause, text = val if len(val) == 3 else (val[0], val[1], "relativizing / fitting a layout for output leaves the "
+                                                                       "receiver layout unchanged")
+
         report.check(not bad[key], rule, fn, f"WebVTT cue settings on {n} layouts x options: {text}",
                      {"layouts": n, "mismatches": bad[key][:2]}, clause)
